@@ -12,7 +12,8 @@
    [-64, 64] including 0, spans in [1, 64] (`span 0` excluded), all four auto-flow modes. *)
 From Coq Require Import ZArith QArith Bool List Lia.
 From TV Require Import Model.PlacementBase Gen.PlacementGen Model.Placement
-  Proofs.PlacementTables Proofs.PlacementMatrix Proofs.PlacementProofs Proofs.PlacementTotal.
+  Proofs.PlacementTables Proofs.PlacementMatrix Proofs.PlacementProofs Proofs.PlacementTotal
+  Model.PlacementDomainB Proofs.PlacementGeneral Proofs.PlacementBSharp.
 Import ListNotations.
 Open Scope Z_scope.
 
@@ -72,7 +73,65 @@ Proof.
   repeat constructor; simpl; lia.
 Qed.
 
+(* ---- the same with the bound as a PARAMETER (Model/PlacementDomainB.v; notes/PLACEMENT-B.md).  The constant 64 above is an
+   artefact of the proof effort; the theorems hold for every B and every number n of children with
+       bound_ok B n  :=  2 <= B  /\  2 * B * n + 16 * B <= 32767 (= i16::MAX)
+   (the estimate has at most 6 B tracks per axis, every placed item grows an axis by at most 2 B, cursors and probed areas stay
+   within 10 B of the last line).  in_domain_B B: explicit counts 0..B, lines in [-B, B] including 0, spans in [1, B].
+   E.g. B = 64 with 247 children, B = 227 with 64 children, B = 1000 with 8 children.  The bound is sufficient, not claimed to
+   be the largest possible; `_refuted` below shows that SOME bound is necessary. *)
+Theorem C03_placement_total_general : forall B ec er fl children,
+  bound_ok B (length children) -> in_domain_B B ec er children ->
+  exists o, grid_placement_run ec er fl children = Ok o.
+Proof. exact placement_total_general. Qed.
+
+(* the pinned domain is exactly the instance B = 64 with at most 64 children, and C03_placement_total follows from the general theorem *)
+Theorem C03_placement_in_domain_is_instance : forall ec er children, in_domain ec er children <->
+  (in_domain_B 64 ec er children /\ (length children <= 64)%nat).
+Proof. exact in_domain_is_instance. Qed.
+
+Theorem C03_placement_total_from_general : forall ec er fl children, in_domain ec er children ->
+  exists o, grid_placement_run ec er fl children = Ok o.
+Proof. exact placement_total_from_general. Qed.
+
+(* the estimate lemma for every B with 16 B <= i16::MAX, any number of children *)
+Theorem C03_placement_estimate_covers_general : forall B ec er children, clause_bound_ok B ->
+  0 <= ec <= B -> 0 <= er <= B -> Forall (child_okB B) children ->
+  exists cc rc, compute_grid_size_estimate ec er children = Ok (cc, rc) /\
+    tc_nonneg cc /\ tc_neg cc <= 2 * B - 1 /\ tc_explicit cc = ec /\ tlen cc <= 6 * B /\
+    tc_nonneg rc /\ tc_neg rc <= 2 * B - 1 /\ tc_explicit rc = er /\ tlen rc <= 6 * B /\
+    Forall (fun c => axis_fits (c_col c) ec cc /\ axis_fits (c_row c) er rc) children.
+Proof. exact estimate_covers_general. Qed.
+
+(* sharpness direction: without a bound the statement is false.  B = 32767 (every i16 line index allowed), one child
+   `grid-column: 32767 / span 2` on a 1 x 1 explicit grid: inside in_domain_B 32767, and the checked arithmetic overflows
+   (`OriginZeroLine(32766) + 2u16` in resolve_definite_grid_lines: a debug build panics `attempt to add with overflow`, a release
+   build wraps to a negative end line).  The same style is the non-example of C03_grid_container_example_computed. *)
+Theorem C03_placement_total_general_refuted_without_bound :
+  exists B ec er fl children, 2 <= B /\ in_domain_B B ec er children /\ ~ bound_ok B (length children) /\
+                              grid_placement_run ec er fl children = Err Overflow.
+Proof. exact general_total_needs_bound_ok. Qed.
+
+(* non-vacuity of the general theorem beyond the pinned domain: B = 200 (lines +-200, span 150, explicit 100 x 7), 3 children *)
+Example C03_placement_general_example :
+  let children := [ (InFlow, mkChild (mkLn Auto (Line (-200))) (mkLn (Line 200) (Span 150)));
+                    (Absolute, mkChild (mkLn (Line 0) (Span 3)) (mkLn Auto Auto));
+                    (InFlow, mkChild (mkLn Auto Auto) (mkLn (Span 120) Auto)) ] in
+  bound_ok 200 (length children) /\ in_domain_B 200 100 7 children /\ ~ in_domain 100 7 children /\ clause_bound_ok 200.
+Proof.
+  cbv zeta. split; [unfold bound_ok; cbn [length]; lia|]. split.
+  { unfold in_domain_B. split; [lia|]. split; [lia|].
+    repeat constructor; cbn [snd c_row c_col l_start l_end gp_okB]; lia. }
+  split; [|unfold clause_bound_ok; lia].
+  unfold in_domain. intros (H & _). lia.
+Qed.
+
 Print Assumptions C03_placement_total.
+Print Assumptions C03_placement_total_general.
+Print Assumptions C03_placement_in_domain_is_instance.
+Print Assumptions C03_placement_total_from_general.
+Print Assumptions C03_placement_estimate_covers_general.
+Print Assumptions C03_placement_total_general_refuted_without_bound.
 Print Assumptions C03_placement_estimate_covers.
 Print Assumptions C03_placement_search_both_terminates.
 Print Assumptions C03_placement_search_secondary_definite_terminates.
